@@ -589,8 +589,11 @@ func classifyAddrUses(fa *ssa.FieldAddr) []FieldAccess {
 		default:
 			// address passed to a call, etc.
 			if ci, ok := r.(ssa.CallInstruction); ok {
-				// method call on the field itself (e.g. mutex): not a data access
-				_ = ci
+				// handed to sync/atomic (function, or method of an atomic type): an atomic access
+				if cal := ci.Common().StaticCallee(); cal != nil && cal.Pkg != nil && cal.Pkg.Pkg.Path() == "sync/atomic" {
+					out = append(out, FieldAccess{Kind: "atomic", Pos: r.Pos(), Why: "atomic access through " + cal.Name(), Points: []ssa.Instruction{r}})
+					continue
+				}
 				out = append(out, FieldAccess{Kind: "addr-escape", Pos: r.Pos(), Why: "address of field passed to " + r.String()})
 			} else {
 				out = append(out, FieldAccess{Kind: "addr-escape", Pos: r.Pos(), Why: "address used by " + r.String()})
@@ -719,8 +722,31 @@ func (le *LockEngine) CheckGuardedBy(fns []*ssa.Function, T *types.Named, field,
 		return nil, fmt.Errorf("field %s or guard %s not found in %s", field, guard, T)
 	}
 	var out []GuardVerdict
-	for _, acc := range fieldAccesses(fns, st, fi) {
+	accs := fieldAccesses(fns, st, fi)
+	// a field that is touched only through sync/atomic (apart from objects under construction)
+	// needs no lock; a mix of atomic and plain accesses is judged as plain accesses
+	atomicOnly, nAtomic := true, 0
+	for _, acc := range accs {
+		switch {
+		case acc.Kind == "atomic":
+			nAtomic++
+		case freshBase(acc.Base):
+		default:
+			atomicOnly = false
+		}
+	}
+	atomicOnly = atomicOnly && nAtomic > 0
+	for _, acc := range accs {
 		v := GuardVerdict{Acc: acc}
+		if acc.Kind == "atomic" {
+			if atomicOnly {
+				v.OK, v.Need = true, "accessed only through sync/atomic"
+				out = append(out, v)
+				continue
+			}
+			acc.Kind = "addr-escape"
+			v.Acc = acc
+		}
 		switch {
 		case acc.Kind == "len":
 			v.OK, v.Exempt = true, "len/cap of the header only"
